@@ -463,13 +463,13 @@ pub fn run(ctx: &Ctx) -> usize {
 	ctx.assume("a stalled-but-running reader would end as inconclusive (exit 2), never as a violation");
 	let mut violations = 0;
 	let small = GenCfg::small();
-	let nfiles = ctx.n(48, 400);
+	let nfiles = ctx.n(96, 1200);
 	let models: Vec<ModelGame> = (0..nfiles).map(|i| finished_model(ctx.seed ^ (0xC07 + i as u64 * 7919), &small)).collect();
 	if rt::par_first(ctx, "slp_cut", models.len(), |i| slp_file(ctx, &models[i], true, 0)).is_some() {
 		violations += 1;
 	}
 	let big = if ctx.quick() { GenCfg::quick() } else { GenCfg::thorough() };
-	let nbig = ctx.n(24, 300);
+	let nbig = ctx.n(48, 1000);
 	let bigm: Vec<ModelGame> = (0..nbig).map(|i| finished_model(ctx.seed ^ (0xB16 + i as u64 * 104729), &big)).collect();
 	if rt::par_first(ctx, "slp_cut", bigm.len(), |i| slp_file(ctx, &bigm[i], false, ctx.seed ^ i as u64)).is_some() {
 		violations += 1;
@@ -498,7 +498,7 @@ pub fn run(ctx: &Ctx) -> usize {
 			}
 		}
 	}
-	let nsl = ctx.n(40, 600);
+	let nsl = ctx.n(60, 2000);
 	let mut cfg = small.clone();
 	cfg.max_frames = ctx.n(8, 60);
 	for i in 0..nsl {
